@@ -92,6 +92,14 @@ structure Heap where
 
 instance : Inhabited Heap := ⟨{}⟩
 
+/-- identity of the `peng` record number `k` allocated from the counter `nRec` (terminals, clones) -/
+def ownRec (k : Nat) : Nat := 2 * k
+/-- identity of the `peng` record that `linkProperties` creates for the CP / coord node `x` (at most one per node: it is
+    created only when the node has none).  The two families are disjoint; which numbers name the records is not observable
+    (only the partition of the nodes by shared record is compared with the Python objects), and this choice makes the
+    record of a node independent of what happened to OTHER trees in between (C13). -/
+def freshRec (x : Nat) : Nat := 2 * x + 1
+
 /-- function update -/
 def upd {β} (f : Nat → β) (k : Nat) (v : β) : Nat → β := fun i => if i = k then v else f i
 
@@ -219,8 +227,8 @@ def step (st : Heap) : Act → Except Crash Heap
   | .fresh x ifNone =>
     if ifNone && (st.peng x).isSome then .ok st
     else
-      let r := st.nRec
-      .ok { st with peng := upd st.peng x (some r), prec := upd st.prec r {}, nRec := r + 1 }
+      let r := freshRec x
+      .ok { st with peng := upd st.peng x (some r), prec := upd st.prec r {} }
   | .setCod x y => .ok { st with cod := upd st.cod x (some y) }
   | .setSubject x y => .ok { st with subject := upd st.subject x (some y) }
   | .morphoError x =>
